@@ -1249,6 +1249,19 @@ def corpus():
                        'corpus:fixed:forwardRefBoundInDeferredCheck'))
     out.append(mk_case([{'cls': 'plain'}], [sched_step(0, [{'i': 0, 'how': 'plain', 'sig': OVERLAP['c_TF'], 'vals': {'a': C1_}, 'r': C1_}], aio='tasks')],
                        'corpus:fixed:forwardRefBoundInDeferredCheck'))
+    # fixed (generic_params_from_parameters): genericParamsFromFirstBase - the accessor zipped the type arguments of the FIRST original base with
+    # the arguments of __orig_class__ (raw IndexError / X never read / swapped); genericSubclassNotRecognised - generic only through a user base
+    put = lambda v: {'i': 0, 'sig': CATALOGUE['m_T'], 'vals': {'a': v}, 'r': None}
+    shp = lambda sid, X, init=False: [{'cls': 'Shape', 'shape': sid, 'init': init, 'X': X}]
+    for sid in ('DsG', 'MG', 'ML', 'LL'):
+        out.append(mk_case(shp(sid, [INT]), [put(inst('int'))], 'corpus:fixed:genericParamsFromFirstBase'))
+        out.append(mk_case(shp(sid, [INT]), [put(inst('str'))], 'corpus:fixed:genericParamsFromFirstBase'))
+    out.append(mk_case(shp('DGr', [STR, INT]), [{'i': 0, 'sig': CATALOGUE['m_S'], 'vals': {'a': inst('str')}, 'r': None}], 'corpus:fixed:genericParamsFromFirstBase'))
+    out.append(mk_case(shp('DGr', [STR, INT]), [{'i': 0, 'sig': CATALOGUE['m_S'], 'vals': {'a': inst('int')}, 'r': None}], 'corpus:fixed:genericParamsFromFirstBase'))
+    out.append(mk_case(shp('DsG', [INT], True), [{'i': 0, 'op': 'init', 'sig': WARM, 'vals': {}, 'kids': [{'i': 0, 'how': 'self', 'sig': WARM, 'vals': {}, 'r': None}]},
+                                               put(inst('int'))], 'corpus:fixed:genericParamsFromFirstBase'))
+    out.append(mk_case(shp('UB', [INT]), [put(inst('str'))], 'corpus:fixed:genericSubclassNotRecognised'))
+    out.append(mk_case(shp('UB', [INT]), [put(inst('int')), put(inst('str')), put(inst('int'))], 'corpus:fixed:genericSubclassNotRecognised'))
     return out
 
 
@@ -1539,11 +1552,8 @@ def judge_c08(case, impl, model):
                 if b != 'ESC':
                     corr, why = False, f'{describe(case, k, q)}: implementation {a}, model {b}'
                 if pfail is None:
+                    # (former region genericParamsFromFirstBaseEscapes: repaired - the accessor reads type(instance).__parameters__)
                     pfail = f'{describe(case, k, q)}: {a} reached the caller'
-                    if 'genericParamsFromFirstBase' in (model['regions'][k] if k < len(model['regions']) else []):
-                        finding = 'genericParamsFromFirstBaseEscapes'
-    if not corr:
-        finding = None
     return {'corr': corr, 'pfail': pfail, 'finding': finding, 'nontrivial': j['nontrivial'], 'tag': 'c07' + j['tag'], 'why': why}
 
 
